@@ -29,6 +29,8 @@ define_language! {
         Idx(Slot, AppliedId) = "idx",
         // a slot argument left of a binder (the binder may re-use the argument's name)
         SB(Slot, Bind<AppliedId>) = "sb",
+        // a slot argument right of a binder (first seen after the binder's scope has ended)
+        BSl(Bind<AppliedId>, Slot) = "bsl",
         // three children (the same child class can occur at non-adjacent positions)
         Ite(AppliedId, AppliedId, AppliedId) = "ite",
     }
@@ -58,6 +60,7 @@ pub static LSYM: LangSig = LangSig {
         OpSig { name: "bb", fields: &[Fld::C(2)] },
         OpSig { name: "idx", fields: &[Fld::S, Fld::C(0)] },
         OpSig { name: "sb", fields: &[Fld::S, Fld::C(1)] },
+        OpSig { name: "bsl", fields: &[Fld::C(1), Fld::S] },
         OpSig { name: "ite", fields: &[Fld::C(0), Fld::C(0), Fld::C(0)] },
     ],
 };
